@@ -94,13 +94,15 @@ func trimTrailingSpacesEdits(content string, mapper *lsputil.PositionMapper, pos
 			continue
 		}
 
+		// the carriage return of a CRLF line end belongs to the line terminator
+		line = strings.TrimSuffix(line, "\r")
 		trimmed := strings.TrimRight(line, " \t")
 		if len(trimmed) == len(line) {
 			continue
 		}
 
 		trimmedUTF16Len := lsputil.UTF16Len(trimmed)
-		lineUTF16Len := mapper.LineUTF16Len(lineNum)
+		lineUTF16Len := lsputil.UTF16Len(line)
 
 		edit := protocol.TextEdit{
 			Range: protocol.Range{
@@ -178,7 +180,7 @@ func formatTransactionWithOpts(tx *ast.Transaction, mapper *lsputil.PositionMapp
 				},
 				End: protocol.Position{
 					Line:      uint32(line),
-					Character: uint32(mapper.LineUTF16Len(line)),
+					Character: uint32(lineContentUTF16Len(mapper, line)),
 				},
 			},
 			NewText: formatted,
@@ -187,6 +189,15 @@ func formatTransactionWithOpts(tx *ast.Transaction, mapper *lsputil.PositionMapp
 	}
 
 	return edits
+}
+
+// lineContentUTF16Len is the length of a line without the carriage return of a CRLF line end.
+func lineContentUTF16Len(mapper *lsputil.PositionMapper, line int) int {
+	n := mapper.LineUTF16Len(line)
+	if n > 0 && mapper.LineEndsWithCR(line) {
+		n--
+	}
+	return n
 }
 
 func calculateAccountDisplayLength(p *ast.Posting) int {
